@@ -22,8 +22,8 @@ TRUSTED_BASE = [
 ]
 ASSUMPTIONS = [
     "vocabulary: int/intset/bool variables, integer constants, + - * mod, six comparisons, and/or/not, lin_eq/lin_le/lin_ne, Model::add/sub/mul on variables",
-    "known classes (known_findings.txt): or_not, nested_ne, mod_rejected (divisor bounds containing 0), lin_zero_coeffs, modulo_prop; "
-    "aux_bounds and empty_domain_panic are repaired (fixed: entries)",
+    "known classes (known_findings.txt): or_not, mod_rejected (divisor bounds containing 0), lin_zero_coeffs, modulo_prop; "
+    "aux_bounds, empty_domain_panic and nested_ne are repaired (fixed: entries)",
     "in-range condition of lower_denotes / spellings_agree (doms_nonempty on the lowered store): no auxiliary variable's computed range "
     "has more than MAX_SPARSE_SET_DOMAIN_SIZE values (the validator answers InvalidDomain; the model represents such a variable by the "
     "empty domain without materialising it; cases outside it are classed oversize_domain, the open finding filed under C02); the "
@@ -398,13 +398,3 @@ for f in FAMILIES:
     f.normal = normal
     if f.sub == "msolve": f.corr = corr_msolve
     if f.sub == "mspell": f.corr = corr_mspell
-
-# TEMPORARY_NE (until the lowering model is updated to fix commit 106df3d "NotEquals prunes"): cases whose tree
-# contains a `!=` are left out of the semantic families, because the model's prediction still treats a Binary `!=`
-# as unenforced
-def _no_ne(fam):
-    g = fam.gen
-    fam.gen = lambda tier, rng, g=g: [c for c in g(tier, rng) if "ne(" not in c]
-for _f in FAMILIES:
-    if _f.sub in ("msolve", "mspell"):
-        _no_ne(_f)
